@@ -110,6 +110,100 @@ _SYM = {ast.Lt: '<', ast.Gt: '>', ast.LtE: '<=', ast.GtE: '>=', ast.Eq: '==',
         ast.NotEq: '!=', ast.Is: 'is', ast.IsNot: 'is not', ast.In: 'in', ast.NotIn: 'not in'}
 
 
+INLINER = None     # set by core.Ctx: callable(ast.Call) -> inlined ast expression or None
+
+
+def inline_pred(test):
+    """If test is a call of a trivial predicate helper (module-level function whose body is a single
+    `return <expr>`), return that expression with the arguments substituted; else None."""
+    if INLINER is not None and isinstance(test, ast.Call):
+        try:
+            return INLINER(test)
+        except Exception:
+            return None
+    return None
+
+
+def expand_preds(test):
+    """Copy of a test expression in which calls of trivial predicate helpers are inlined."""
+    import copy
+
+    class T(ast.NodeTransformer):
+        def visit_Call(self, node):
+            inl = inline_pred(node)
+            if inl is not None:
+                return T().visit(inl)
+            return self.generic_visit(node)
+    if INLINER is None:
+        return test
+    # inline_pred needs the original node (parent links) to find its module: look up before copying
+    mapping = {}
+    for n in ast.walk(test):
+        if isinstance(n, ast.Call):
+            inl = inline_pred(n)
+            if inl is not None:
+                mapping[id(n)] = inl
+    if not mapping:
+        return test
+
+    class R(ast.NodeTransformer):
+        def visit_Call(self, node):
+            if id(node) in mapping:
+                return mapping[id(node)]
+            return self.generic_visit(node)
+    # operate on the original tree shape without mutating it: rebuild top-down
+    def rebuild(n):
+        if id(n) in mapping:
+            return mapping[id(n)]
+        if isinstance(n, ast.BoolOp):
+            return ast.BoolOp(op=n.op, values=[rebuild(v) for v in n.values])
+        if isinstance(n, ast.UnaryOp):
+            return ast.UnaryOp(op=n.op, operand=rebuild(n.operand))
+        return n
+    return ast.fix_missing_locations(rebuild(test))
+
+
+def unique_binding(fnode, name):
+    """The RHS expression of the single plain assignment binding `name` in the function (own scope), if the
+    name is bound exactly once, is not a parameter, not a loop/with target and never augmented; else None."""
+    a = fnode.args
+    params = {x.arg for x in a.posonlyargs + a.args + a.kwonlyargs}
+    if a.vararg:
+        params.add(a.vararg.arg)
+    if a.kwarg:
+        params.add(a.kwarg.arg)
+    if name in params:
+        return None
+    defs = assignments_to(fnode, name)
+    if len(defs) != 1:
+        return None
+    st, v = defs[0]
+    if not isinstance(st, ast.Assign) or not isinstance(v, ast.AST):
+        return None
+    return v
+
+
+class _Expander(ast.NodeTransformer):
+    def __init__(self, fnode, depth):
+        self.fnode, self.depth = fnode, depth
+
+    def visit_Name(self, node):
+        if isinstance(node.ctx, ast.Load) and self.depth > 0:
+            v = unique_binding(self.fnode, node.id)
+            if v is not None and not any(isinstance(x, (ast.Yield, ast.Await, ast.Lambda)) for x in ast.walk(v)):
+                import copy
+                return _Expander(self.fnode, self.depth - 1).visit(copy.deepcopy(v))
+        return node
+
+
+def expand_names(fnode, expr, depth=3):
+    """Copy of expr with single-assignment local names replaced by their defining expressions."""
+    import copy
+    e = copy.deepcopy(expr)
+    out = _Expander(fnode, depth).visit(e)
+    return ast.fix_missing_locations(out)
+
+
 def compare_atoms(test, polarity=True):
     """Decompose a boolean test into a list of atomic facts known to hold when
     the test evaluates to ``polarity``.  Each fact is (lhs_text, op, rhs_text)
@@ -118,6 +212,9 @@ def compare_atoms(test, polarity=True):
     a conjunction that is true gives all its conjuncts; a disjunction that is
     false gives all negated disjuncts; otherwise nothing for that part."""
     facts = []
+    inl = inline_pred(test)
+    if inl is not None:
+        return compare_atoms(inl, polarity) + [('truthy' if polarity else 'falsy', src(test))]
     if isinstance(test, ast.UnaryOp) and isinstance(test.op, ast.Not):
         return compare_atoms(test.operand, not polarity)
     if isinstance(test, ast.BoolOp):
